@@ -24,8 +24,27 @@ def main():
     except tlc.MachineryError as e:
         print("MACHINERY-FAILURE property=%s %s" % (a.pid, e))
         sys.exit(2)
-    except Exception:
+    except Exception as e:
         traceback.print_exc()
+        # An exception that escaped a check: if it was raised INSIDE the library under test (innermost frame in the repository),
+        # the library failed on an input the harness holds to be in the property's domain - that is a violation with a replay,
+        # not a broken check.  Anything raised in the machinery itself stays a machinery failure.
+        from lib import core
+        import hashlib
+        import json
+        tb = traceback.extract_tb(e.__traceback__)
+        inner = tb[-1].filename if tb else ""
+        if not a.replay and os.path.abspath(inner).startswith(os.path.abspath(core.REPO) + os.sep):
+            blob = json.dumps({"property": a.pid, "key": "uncaught:%s:%s" % (os.path.basename(inner), tb[-1].name), "clause": "library_raised_unexpectedly",
+                               "detail": {"error": repr(e), "traceback": traceback.format_exception(type(e), e, e.__traceback__)[-12:]}}, indent=1)
+            d = os.path.join(core.REPLAYS, a.pid)
+            os.makedirs(d, exist_ok=True)
+            path = os.path.join(d, hashlib.sha1(blob.encode()).hexdigest()[:12] + ".json")
+            with open(path, "w") as fh:
+                fh.write(blob)
+            print("VIOLATION property=%s replay=%s clause=library_raised_unexpectedly key=uncaught:%s:%s"
+                  % (a.pid, path, os.path.basename(inner), tb[-1].name))
+            sys.exit(1)
         print("MACHINERY-FAILURE property=%s unexpected exception in harness" % a.pid)
         sys.exit(2)
     sys.exit(rc)
